@@ -1,7 +1,7 @@
 """Rules added after confronting the checker with independently written bug patches (DESIGN §8.3)."""
 import re
 
-from core import op_local, op_const_bits, place_fields, strip_crate, alias_paths, place_path, mem_loc, rvalue_operands, ok_bool_edges
+from core import op_local, op_const_bits, place_fields, strip_crate, alias_paths, place_path, mem_loc, rvalue_operands, ok_bool_edges, result_edges
 from engine import rule
 from flow import flow_of
 from vocab import api_mut, open_bodies, where
@@ -276,6 +276,20 @@ def rp4(ctx):
                   'during replay a record of a batch that cannot be applied is skipped (%s): the batch would be recovered with a hole' % bad)
     if n == 0:
         ctx.missing('apply', 'no fallible in-memory append in the AppendRecords replay arm')
+        return
+    # ... and EVERY record the batch iterator yields is applied: going from one next() to the following one without
+    # passing the in-memory append (an "already known, skip" fast path) also leaves a hole in the batch
+    applies = [cs.point for (host, cs, _res) in expand_arm_sites(ctx, b, region) if host is b and cs.node is not None and cs.dest_local() is not None
+               and b.local_ty(cs.dest_local()).endswith('error::AppendError>') and ctx.E.call_may(cs, 'MEM')]
+    nexts = [c for c in b.calls if c.point in region and c.name.endswith('as std::iter::Iterator>::next') and 'MultiRecord' in c.name]
+    for nx in nexts:
+        if not applies:
+            break
+        re_ = result_edges(b, nx.dest_local()) if nx.dest_local() is not None else {'err': []}
+        r_ = b.reach_after(nx.point, avoid=set(applies) | {cs0.point}, avoid_edges=list(re_['err']))
+        ctx.check(nx.point not in r_, 'append-arm:every-record-applied', where(b, nx.point), 'every record yielded by the batch iterator goes through the in-memory append before the next one is fetched',
+                  'during replay the batch loop can go on to the next record without applying the current one (a skip path around the in-memory append): the batch would be recovered with a hole',
+                  detail={'path': b.witness(nx.point, nx.point, avoid=set(applies) | {cs0.point}, avoid_edges=list(re_['err']))} if nx.point in r_ else None)
 
 
 @rule('RO1', ['C01', 'C11'], floor=1, template='must-call')
@@ -422,6 +436,15 @@ def ft1(ctx):
                                 nonempty, empty = e[0], e[1]
                             if nonempty:
                                 guards.append((lens[0][1], nonempty, empty))
+        # `let first = list.first()?` / `iter().min()?` / `match list.last() { Some(..) => .., None => return None }`:
+        # the Some edge of an element accessor proves the list non-empty just as well
+        for cs in b.calls:
+            if cs.dest_local() is not None and re.search(r'(::first|::last|::split_first|::split_last|Iterator>::min|Iterator>::max|Iterator>::next|::first_key_value|::last_key_value|::pop_first|::pop_last|::pop)(::<.*>)?$', cs.name) \
+                    and b.local_ty(cs.dest_local()).startswith('std::option::Option<'):
+                re_ = result_edges(b, cs.dest_local())
+                for oe in re_['ok']:
+                    for ee in re_['err']:
+                        guards.append((cs, oe, ee))
         for (p, rv) in aggs:
             n += 1
             ok = False
@@ -442,6 +465,55 @@ def ft1(ctx):
                       'a FileTracker is built without the list of file numbers having been found non-empty: an empty tracker panics in first() and makes open start a fresh log over existing WAL files')
     if n == 0:
         ctx.missing('tracker-constructions', 'no FileTracker construction found')
+
+
+@rule('FT3', ['C17', 'C01'], floor=1, template='provenance')
+def ft3(ctx):
+    """A tracker built from a list of file numbers tracks exactly the numbers of that list: nothing that
+    synthesises numbers (a range between bounds, successors, repeat) and nothing that thins the list out
+    (filter, skip, take, step_by) feeds its collection. Numbers inside a gap were never validated by the
+    directory scan; a tracker that invents them opens, writes and unlinks files the scan rejected or never saw."""
+    n = 0
+    for b in ctx.f.bodies.values():
+        if b.generic_dup() or b.is_test or b.is_closure:
+            continue
+        aggs = []
+        for bi, blk in enumerate(b.blocks):
+            if not b.live[bi]:
+                continue
+            for si, st in enumerate(blk['stmts']):
+                if st['k'] == 'assign' and st['rv']['k'] == 'agg' and strip_crate(st['rv'].get('adt') or '').endswith('rolling::file_number::FileTracker'):
+                    aggs.append((b.pstart[bi] + si, st['rv']))
+        if not aggs:
+            continue
+        list_params = [i for i in range(1, b.arg_count + 1) if re.search(r'\bu64\b', b.local_ty(i)) and re.search(r'Vec<|\[u64\]|IntoIter|Iterator|BTreeSet<', b.local_ty(i))]
+        if not list_params:
+            continue
+        fl = flow_of(b)
+        for (p, rv) in aggs:
+            n += 1
+            back = set()
+            for o in rvalue_operands(rv):
+                back |= fl.backward(set(fl.op_nodes(o)))
+            from_list = any(('l', i) in back for i in list_params)
+            synth = []
+            for c in b.calls:
+                if not any(x in back for x in fl.call_result_nodes(c)):
+                    continue
+                if re.search(r'RangeInclusive::<.*>::new$|iter::successors|iter::repeat|iter::from_fn|Iterator>::(filter|filter_map|skip|skip_while|take|take_while|step_by)(::<.*>)?$|::dedup_by_key|::retain|::truncate|::drain|::split_off', c.name):
+                    synth.append(c.name[-50:])
+            for bi, blk in enumerate(b.blocks):
+                if not b.live[bi]:
+                    continue
+                for st in blk['stmts']:
+                    if st['k'] == 'assign' and st['rv']['k'] == 'agg' and re.search(r'ops::Range(Inclusive|From)?$', st['rv'].get('adt') or '') \
+                            and any(x in back for x in fl.write_nodes(st['place'])):
+                        synth.append(st['rv']['adt'])
+            ctx.check(from_list and not synth, '%s:exact-list' % b.path, where(b, p), 'the tracker collection comes from the list parameter, element for element',
+                      'the tracker is not built from exactly the scanned file numbers (%s): numbers the directory scan never validated get opened, written or unlinked, or scanned files are left out'
+                      % (sorted(set(synth)) or 'the list parameter does not reach the collection'))
+    if n == 0:
+        ctx.missing('tracker-from-list', 'no FileTracker construction from a list of numbers found')
 
 
 @rule('FT2', ['C17', 'C01', 'C02'], floor=1, template='no-arithmetic')
